@@ -13,7 +13,7 @@ theorem TailOK.headSat {tail : Bytes} (ht : TailOK tail) : HeadSat isNewline tai
 
 /-! ### dispatch of `parseRecord` -/
 
-theorem parseRecord_eq (bs : Bytes) (h0 : consumeNewlines bs = bs) :
+theorem parseRecord_eq_rt (bs : Bytes) (h0 : consumeNewlines bs = bs) :
     parseRecord bs =
       match (if startsWith bs [35] then parseHeader bs
         else if startsWith bs litIndent then parseMember bs else parseClass bs) with
@@ -30,21 +30,21 @@ theorem parseRecord_class (bs : Bytes) (h0 : consumeNewlines bs = bs)
     parseRecord bs = match parseClass bs with
       | some (r, rest) => (.ok r, rest)
       | none => (.err (splitLine bs).1, (splitLine bs).2) := by
-  rw [parseRecord_eq bs h0]; simp [h1, h2]
+  rw [parseRecord_eq_rt bs h0]; simp [h1, h2]
 
 theorem parseRecord_member (bs : Bytes) (h0 : consumeNewlines bs = bs)
     (h1 : startsWith bs [35] = false) (h2 : startsWith bs litIndent = true) :
     parseRecord bs = match parseMember bs with
       | some (r, rest) => (.ok r, rest)
       | none => (.err (splitLine bs).1, (splitLine bs).2) := by
-  rw [parseRecord_eq bs h0]; simp [h1, h2]
+  rw [parseRecord_eq_rt bs h0]; simp [h1, h2]
 
 theorem parseRecord_header (bs : Bytes) (h0 : consumeNewlines bs = bs)
     (h1 : startsWith bs [35] = true) :
     parseRecord bs = match parseHeader bs with
       | some (r, rest) => (.ok r, rest)
       | none => (.err (splitLine bs).1, (splitLine bs).2) := by
-  rw [parseRecord_eq bs h0]; simp [h1]
+  rw [parseRecord_eq_rt bs h0]; simp [h1]
 
 /-- the first-byte facts that send a line to `parseClass` -/
 theorem class_dispatch (a r : Bytes) (hn : ∀ b ∈ a, isNewline b = false)
@@ -314,7 +314,7 @@ theorem C05_line_sourceFile (value : Bytes) (h : (Line.sourceFile value).WF) (ta
   rw [parseRecord_header _ d0 d1]
   have e1 : parseUntilNoNewline (· == 34) (value ++ 34 :: 125 :: tail) = some (value, 34 :: 125 :: tail) :=
     pUNN_ok _ _ _ _ hu1 hn1 (beq_false_of_nmem _ _ h34) (by decide) (by decide)
-  simp only [parseHeader, stripPrefix_append, e1, litQuoteBrace, stripPrefix, beq_self_eq_true, if_true,
+  simp only [parseHeader, stripPrefix_append_rt, e1, litQuoteBrace, stripPrefix, beq_self_eq_true, if_true,
     Line.toRecord]
 
 /-! ### iterator / error-family helpers -/
